@@ -143,6 +143,65 @@ pub fn run(reg: &dyn Registry, ctx: &Ctx) -> Outcome {
         })
         .collect();
     let _ = results;
+    // large pair sets for the hand-written == of the array-based types (thorough): N states of one
+    // stream, one full table refresh apart, all pairwise distinct by construction; an == that compares
+    // a lossy digest (fewer than ~2*log2(N) bits) equates two of them
+    if ctx.tier == crate::evidence::Tier::Thorough {
+        let mut big: Vec<&'static dyn GenType> = reg.core_types();
+        big.push(reg.get("Hc128Rng").unwrap());
+        for ty in big {
+            let info = ty.info();
+            let n: usize = 1 << 17;
+            let seed = standard_seeds(ty, ctx.seed)[1].clone();
+            let mut g = ty.from_seed(&seed);
+            let blocks_apart = if info.name.starts_with("Hc128") { 64 } else { 1 };
+            let mut states: Vec<Box<dyn Gen>> = Vec::with_capacity(n);
+            let mut buf = vec![0u8; 64];
+            for _ in 0..n {
+                states.push(g.clone_box());
+                for _ in 0..blocks_apart {
+                    if info.family == Family::Core {
+                        g.next_u32();
+                    } else {
+                        g.fill_bytes(&mut buf);
+                    }
+                }
+            }
+            // read-only sharing of the states between worker threads (all generator types are Sync: the
+            // compile-time probe of C19 asserts it)
+            struct Shared(Vec<Box<dyn Gen>>);
+            unsafe impl Sync for Shared {}
+            let shared = Shared(states);
+            let states = &shared;
+            let hits: Vec<(usize, usize)> = (0..n)
+                .into_par_iter()
+                .flat_map_iter(|i| {
+                    let mut v = Vec::new();
+                    for j in i + 1..n {
+                        if states.0[i].eq_dyn(states.0[j].as_ref()) == Some(true) {
+                            v.push((i, j));
+                        }
+                    }
+                    v.into_iter()
+                })
+                .collect();
+            ctx.add("pairs_compared", (n as u64) * (n as u64 - 1) / 2);
+            ctx.add("large_pair_set_states", n as u64);
+            for (i, j) in hits.into_iter().take(3) {
+                let mut a = states.0[i].clone_box();
+                let mut b = states.0[j].clone_box();
+                let oa: Vec<Obs> = (0..4).map(|_| apply(&mut a, &Op::U64)).collect();
+                let ob: Vec<Obs> = (0..4).map(|_| apply(&mut b, &Op::U64)).collect();
+                if oa != ob {
+                    ctx.violation(
+                        &format!("C10:{}:equal-but-different-future", info.name),
+                        &format!("{}: the states after {} and after {} steps of {} blocks from seed {} compare equal but return {:?} and {:?}", info.name, i, j, blocks_apart, crate::evidence::hex(&seed), oa.iter().map(|o| o.to_json()).collect::<Vec<_>>(), ob.iter().map(|o| o.to_json()).collect::<Vec<_>>()),
+                        json!({"kind":"eq-deep-pair","type":info.name,"seed":crate::evidence::hex(&seed),"blocks_apart":blocks_apart,"i":i,"j":j}),
+                    );
+                }
+            }
+        }
+    }
     let (n, f) = reg.isaac_array_probe();
     ctx.set("isaac_array_comparisons", n);
     if let Some(f) = f {
